@@ -219,11 +219,15 @@ class Contenders(Job):
                  "InboundConnectionFactory", "OutboundConnectionFactory", "Connection (handshake states, _cancel, timeoutConnection, connectionLost)"]
     shadows = SHADOWS + ["transit.endpoint_from_hint_obj (fake endpoints)", "transit.allocate_tcp_port/ipaddrs/endpoints.serverFromString (fake listener)"]
 
-    def __init__(self, sender, ncont, steps, relay, listener):
-        self.sender, self.ncont, self.steps, self.relay, self.listener = sender, ncont, steps, relay, listener
-        self.name = "contend_%s_n%d_k%d%s%s" % ("sender" if sender else "receiver", ncont, steps, ("_relay%s" % (relay if relay is not True else "")) if relay else "", "_listen" if listener else "")
+    def __init__(self, sender, ncont, steps, relay, listener, variant=None):
+        self.sender, self.ncont, self.steps, self.relay, self.listener, self.variant = sender, ncont, steps, relay, listener, variant
+        self.name = "contend_%s_n%d_k%d%s%s%s" % ("sender" if sender else "receiver", ncont, steps, ("_relay%s" % (relay if relay is not True else "")) if relay else "", "_listen" if listener else "",
+                                                  ("_" + variant) if variant else "")
         self.bounds = dict(role="sender" if sender else "receiver", outbound_contenders=ncont, relay_contender=relay, inbound_listener=listener,
-                           schedule_steps=steps, inbound_bytes="symbolic, exact expected length per contender (solver decides match/mismatch at any byte)")
+                           schedule_steps=steps, inbound_bytes="symbolic, exact expected length per contender (solver decides match/mismatch at any byte)",
+                           variant={None: "all attempts pending when connect() returns its Deferred",
+                                    "syncfail": "the first direct hint's endpoint fails synchronously (invalid hostname): its contender Deferred has already fired when there_can_be_only_one starts",
+                                    "early-inbound": "an inbound connection arrives and delivers its bytes after get_connection_hints() but before connect() is called"}[variant])
         self.must_reach = ("nt:winner", "nt:failed")
 
     def build(self):
@@ -254,7 +258,15 @@ class Contenders(Job):
                 s.port = Port()
                 return defer.succeed(s.port)
 
+        variant = self.variant
+
+        class SyncFailEndpoint:
+            def connect(s, f):
+                return defer.fail(ValueError("invalid hostname"))
+
         def ep_from_hint(hint, tor, reactor):
+            if variant == "syncfail" and getattr(hint, "hostname", None) == "h0":
+                return SyncFailEndpoint()
             return FakeEndpoint(net, hint, False)
 
         sh = [(T, "endpoint_from_hint_obj", ep_from_hint), (T, "allocate_tcp_port", lambda: 4001),
@@ -270,8 +282,6 @@ class Contenders(Job):
             o.get_connection_hints()   # API order used by every caller in the repo: hints are produced before connect()
             o.set_transit_key(KEY)
             result = []
-            d = o.connect()
-            d.addCallbacks(lambda c: result.append(("ok", c)), lambda f: result.append(("err", f.type.__name__)))
             exp_plain = expected_inbound(o, False)
             exp_relay = expected_inbound(o, True)
             if symbolic:
@@ -303,6 +313,24 @@ class Contenders(Job):
                 conns.append(ent)
                 proto.makeConnection(proto.transport)
                 return ent
+
+            if self.variant == "early-inbound" and listener_f:
+                # the peer dials our listener as soon as it has our hints: the connection negotiates before the local connect() call
+                proto = listener_f[0].buildProtocol(None)
+                ent = new_conn(proto, False)
+                ent["inbound"] = True
+                ent["pos"] = len(ent["x"])
+                try:
+                    proto.dataReceived(ent["x"])
+                except (core.Escape, core.Inconclusive, core._Abort, core.Counterexample):
+                    raise
+                except Exception as e:
+                    core.check_leak(e)
+                if proto.transport.lost:
+                    ent["lost"] = True
+                    proto.connectionLost(failure.Failure(error.ConnectionDone()))
+            d = o.connect()
+            d.addCallbacks(lambda c: result.append(("ok", c)), lambda f: result.append(("err", f.type.__name__)))
 
             def actions():
                 acts = []
@@ -385,11 +413,13 @@ class Contenders(Job):
                     if ent["c"].transport.lost and not ent["lost"]:
                         ent["lost"] = True
                         ent["c"].connectionLost(failure.Failure(error.ConnectionDone()))
+            uncancelled = [p for p in net.pending if not p["d"].called]
             if symbolic:
                 self.invariants(o, conns, result, final=True)
+                check(not (result and uncancelled), "an outbound attempt is still pending (never cancelled) although connect() has finished")
                 eng().note("nt:winner" if (result and result[0][0] == "ok") else "nt:failed")
                 return None
-            return dict(o=o, conns=conns, result=result, sched=sched)
+            return dict(o=o, conns=conns, result=result, sched=sched, uncancelled=len(uncancelled))
 
     def matches(self, ent):
         """SymBool/bool: the bytes delivered so far to this contender are a prefix of / equal the expected handshake"""
@@ -450,6 +480,8 @@ class Contenders(Job):
                 return "connection selected/confirmed with inbound %r, expected %r (schedule %r)" % (e["x"][:n], e["exp"], r["sched"])
         if not result:
             return "connect() still pending after all timers expired (schedule %r)" % (r["sched"],)
+        if r.get("uncancelled"):
+            return "%d outbound attempt(s) still pending (never cancelled) although connect() finished with %r (schedule %r)" % (r["uncancelled"], result[0][0], r["sched"])
         for e in recs:
             if not e["lost"] and not (result[0][0] == "ok" and result[0][1] is e["c"]):
                 return "a connection was confirmed (go) and is in 'records' but connect() gave %r (schedule %r)" % (result[0][:1] + (getattr(result[0][1], "__class__", type(None)).__name__,), r["sched"])
@@ -478,6 +510,8 @@ def jobs(tier):
         J.append(Contenders(sender, 1, k, True, False))
         J.append(Contenders(sender, 0, k + 1, 2, False))
         J.append(Contenders(sender, 1, k, False, True))
+        J.append(Contenders(sender, 2, k, False, False, "syncfail"))
+        J.append(Contenders(sender, 1, k - 1, True, True, "early-inbound"))
         if thorough:
             J.append(Contenders(sender, 2, k - 1, True, True))
             J.append(Contenders(sender, 3, k - 1, False, False))
